@@ -1,10 +1,19 @@
 #!/bin/bash
-# run every seeded change against its property's quick check (seed 0) and print one line per change
+# run every seeded change against its property's quick check (seed 0) and print one line per change.
+# Works on a scratch worktree of /repo (PYTHONPATH / VERIF_REPO point the harness at it), so /repo itself is never touched
+# and the sweep can run next to other work; regenerated Lean files and replays go to scratch directories.
 cd /verif
+wt=/tmp/sweep_repo
+git -C /repo worktree remove --force $wt 2>/dev/null
+git -C /repo worktree add -q --detach $wt HEAD || exit 3
+export PYTHONPATH=$wt VERIF_REPO=$wt VERIF_GEN_DIR=/tmp/sweep_gen VERIF_REPLAY_DIR=/tmp/sweep_replays
+mkdir -p $VERIF_GEN_DIR $VERIF_REPLAY_DIR
 for d in seeded/*/; do
   n=$(basename $d); pid=${n%%-*}
   [ -f $d/patch.diff ] || continue
-  res=$(/verif/harness/seedrun.sh /verif/$d/patch.diff $pid 2>&1 | tail -1)
+  if ! git -C $wt apply /verif/$d/patch.diff 2>/dev/null; then echo "$n | patch no longer applies"; continue; fi
+  res=$(./check $pid --skip-lean 2>&1 | grep -v WARNING | grep -v KNOWN-FINDING | tail -2 | tr '\n' ' ')
   echo "$n | $res"
+  git -C $wt checkout -- .
 done
-git -C /repo status --short
+git -C /repo worktree remove --force $wt
